@@ -1,25 +1,262 @@
-//! C20 — not built yet (stub).
+//! C20 — explain and profile do not change results.
+//! Finder (implementation only): every random request is run with explain/profile off/on
+//! (4 variants); hits, order, scores, inner hits, totals, cursor and aggregations must agree with
+//! the flags-off response, and with explain every explanation's final score is the hit score.
+//! A difference is classified by a deep-fetch twin (flags off, `candidate_size` covering all
+//! matches): if that twin equals the explain-on response the cause is the fetch depth.
+//! Correspondence: `SL.Post.search` (mechanism model, explain flag included) vs each variant.
+use super::c18::common::*;
+use super::c18::{full_req, ranking_req};
 use crate::proto::Driver;
 use crate::rng::Rng;
 use crate::summary::Summary;
 use crate::{Prop, Tier};
+use searchlite_core::api::{Hit, SearchResult};
 use serde_json::{json, Value};
 
-pub struct Stub;
-pub static P: Stub = Stub;
+pub struct C20;
+pub static P: C20 = C20;
 
-impl Prop for Stub {
+/// first difference between two responses, ignoring `explanation` and `profile`
+pub fn diff_results(a: &SearchResult, b: &SearchResult) -> Option<String> {
+  if a.hits.len() != b.hits.len() {
+    return Some(format!("hit count {} vs {}", a.hits.len(), b.hits.len()));
+  }
+  let mut bits_equal = true;
+  for (i, (x, y)) in a.hits.iter().zip(b.hits.iter()).enumerate() {
+    if x.doc_id != y.doc_id {
+      return Some(format!("hit {i}: {} vs {}", x.doc_id, y.doc_id));
+    }
+    if !close32(x.score, y.score) {
+      return Some(format!("hit {i} ({}): score {} vs {}", x.doc_id, x.score, y.score));
+    }
+    bits_equal &= x.score.to_bits() == y.score.to_bits();
+    let ix: Vec<(String, f32)> = x.inner_hits.as_ref().map(|v| v.iter().map(|h| (h.doc_id.clone(), h.score)).collect()).unwrap_or_default();
+    let iy: Vec<(String, f32)> = y.inner_hits.as_ref().map(|v| v.iter().map(|h| (h.doc_id.clone(), h.score)).collect()).unwrap_or_default();
+    if ix.len() != iy.len() || ix.iter().zip(iy.iter()).any(|(p, q)| p.0 != q.0 || !close32(p.1, q.1)) {
+      return Some(format!("hit {i} ({}): inner hits {:?} vs {:?}", x.doc_id, ix, iy));
+    }
+  }
+  if a.total_hits_estimate != b.total_hits_estimate {
+    return Some(format!("total_hits_estimate {} vs {}", a.total_hits_estimate, b.total_hits_estimate));
+  }
+  if a.total_groups != b.total_groups {
+    return Some(format!("total_groups {:?} vs {:?}", a.total_groups, b.total_groups));
+  }
+  if a.next_cursor.is_some() != b.next_cursor.is_some() || (bits_equal && a.next_cursor != b.next_cursor) {
+    return Some(format!("next_cursor {:?} vs {:?}", a.next_cursor, b.next_cursor));
+  }
+  if !value_close(&canon_aggs(a), &canon_aggs(b)) {
+    return Some(format!("aggregations/suggest {} vs {}", canon_aggs(a), canon_aggs(b)));
+  }
+  None
+}
+
+/// scores set to 0 (also inside cursors: dropped), inner hits optionally removed
+fn normalize(r: &SearchResult, drop_inner: bool) -> SearchResult {
+  fn z(h: &Hit, drop_inner: bool) -> Hit {
+    let mut h = h.clone();
+    h.score = 0.0;
+    h.inner_hits = if drop_inner { None } else { h.inner_hits.as_ref().map(|v| v.iter().map(|x| z(x, drop_inner)).collect()) };
+    h
+  }
+  let mut r = r.clone();
+  r.hits = r.hits.iter().map(|h| z(h, drop_inner)).collect();
+  r.next_cursor = r.next_cursor.as_ref().map(|_| "present".to_string());
+  r
+}
+
+fn explanations_ok(hits: &[Hit]) -> Option<String> {
+  for h in hits {
+    match &h.explanation {
+      None => return Some(format!("{}: no explanation", h.doc_id)),
+      Some(e) => {
+        if e.final_score.to_bits() != h.score.to_bits() {
+          return Some(format!("{}: final_score {} but hit score {}", h.doc_id, e.final_score, h.score));
+        }
+        if let Some(r) = &e.rescore {
+          if r.combined_score.to_bits() != h.score.to_bits() {
+            return Some(format!("{}: rescore.combined_score {} but hit score {}", h.doc_id, r.combined_score, h.score));
+          }
+        }
+      }
+    }
+    if let Some(inner) = &h.inner_hits {
+      if let Some(e) = explanations_ok(inner) {
+        return Some(format!("inner of {}: {e}", h.doc_id));
+      }
+    }
+  }
+  None
+}
+
+impl Prop for C20 {
   fn id(&self) -> &'static str {
     "C20"
   }
   fn rule(&self) -> &'static str {
-    "stub"
+    "case = random corpus (4..40 docs, 1..3 segments) + query + optional filter + request with random sort (score fast path or field/mixed sorts), limit 1..12, optional candidate_size, execution, rescore (35%), collapse with inner hits (35%), aggregations (30%), second page of a cursor walk (15%); each case is run with (explain, profile) in {00, 01, 10, 11}; non-trivial = at least 2 matches and at least one of rescore/collapse/field sort/cursor/aggregations is present (the flags can only matter there); distinct = distinct case JSON"
   }
-  fn count(&self, _tier: Tier) -> usize {
-    0
+  fn count(&self, tier: Tier) -> usize {
+    tier.pick(300, 10000)
   }
-  fn gen(&self, _rng: &mut Rng, _tier: Tier, _i: usize) -> Value {
-    json!(null)
+  fn gen(&self, rng: &mut Rng, _tier: Tier, _i: usize) -> Value {
+    let corpus = gen_corpus(rng, 4, 40);
+    let limit = 1 + rng.below(12);
+    let mut req = json!({"limit": limit, "sort": gen_sort(rng), "execution": gen_exec(rng)});
+    if rng.chance(1, 5) {
+      req["candidate_size"] = json!(limit + rng.below(8));
+    }
+    if rng.chance(7, 20) {
+      let window = if rng.chance(1, 10) { 50 } else { rng.below(limit + 6) };
+      req["rescore"] = json!({"window_size": window, "score_mode": *rng.pick(&MODES), "query": gen_rescore_query(rng)});
+    }
+    if rng.chance(7, 20) {
+      let mut c = json!({"field": "g"});
+      if rng.chance(2, 3) {
+        let mut ih = json!({"sort": if rng.chance(1, 2) { json!([]) } else { gen_sort(rng) }});
+        if rng.chance(1, 2) {
+          ih["size"] = json!(rng.below(4));
+        }
+        if rng.chance(1, 3) {
+          ih["from"] = json!(rng.below(3));
+        }
+        c["inner_hits"] = ih;
+      }
+      req["collapse"] = c;
+    }
+    if rng.chance(3, 10) {
+      req["aggs"] = std_aggs();
+    }
+    let query = gen_query(rng);
+    settle_exec(&query, &mut req);
+    json!({"corpus": corpus, "query": query, "filter": gen_filter(rng), "req": req, "page2": rng.chance(3, 20)})
   }
-  fn run_case(&self, _drv: &mut Driver, _case: &Value, _s: &mut Summary) {}
+
+  fn run_case(&self, drv: &mut Driver, case: &Value, s: &mut Summary) {
+    let built = match build(&case["corpus"]) {
+      Ok(b) => b,
+      Err(e) => {
+        s.disagree("harness.build", case, json!(e), json!(null));
+        return;
+      }
+    };
+    let lay = match layout(&built.reader, &case["corpus"]) {
+      Ok(l) => l,
+      Err(e) => {
+        s.disagree("harness.layout", case, json!(e), json!(null));
+        return;
+      }
+    };
+    let mut req = full_req(case);
+    let exec = req["execution"].as_str().unwrap_or("wand").to_string();
+    // optional: second page (cursor of the flags-off first page)
+    let mut cursor: Option<(String, f32, usize)> = None;
+    if case["page2"].as_bool().unwrap_or(false) {
+      if let Ok(first) = run(&built.reader, &req) {
+        if let (Some(c), Some(last)) = (first.next_cursor.clone(), first.hits.last()) {
+          req["cursor"] = json!(c);
+          cursor = Some((last.doc_id.clone(), last.score, first.hits.len()));
+        }
+      }
+    }
+    let base = match run(&built.reader, &req) {
+      Ok(r) => r,
+      Err(e) => {
+        s.case(case, false);
+        s.count(&format!("base_error:{}", e.chars().take(40).collect::<String>()));
+        return;
+      }
+    };
+    let fast = plan_json(&req["sort"]) == json!([{"f":"score","desc":true}]);
+    let has_resc = !req["rescore"].is_null();
+    let has_coll = !req["collapse"].is_null();
+    let nontrivial = base.total_hits_estimate >= 2 && (has_resc || has_coll || !fast || cursor.is_some() || !req["aggs"].is_null());
+    s.case(case, nontrivial);
+    s.count(if fast { "sort:score_fast" } else { "sort:other" });
+    if has_resc {
+      s.count("with_rescore");
+    }
+    if has_coll {
+      s.count("with_collapse");
+    }
+    if cursor.is_some() {
+      s.count("second_page");
+    }
+    if !req["aggs"].is_null() {
+      s.count("with_aggs");
+    }
+    let outcomes = if has_resc { rescore_outcomes(&built.reader, &req["rescore"]["query"], &exec).ok() } else { None };
+    let mut deep_cache: Option<Option<SearchResult>> = None;
+
+    for (explain, profile) in [(false, false), (false, true), (true, false), (true, true)] {
+      let mut r = req.clone();
+      r["explain"] = json!(explain);
+      r["profile"] = json!(profile);
+      let v = match run(&built.reader, &r) {
+        Ok(v) => v,
+        Err(e) => {
+          s.fail(if explain { "explain.error" } else { "profile.error" }, "request fails with the flag although it succeeds without", case, json!({"explain": explain, "profile": profile, "error": e}));
+          continue;
+        }
+      };
+      // ---------------- finder ----------------
+      if explain || profile {
+        if let Some(d) = diff_results(&base, &v) {
+          let obs = json!({"explain": explain, "profile": profile, "diff": d, "flags_off": hit_ids(&base.hits), "flags_on": hit_ids(&v.hits),
+            "total_groups_off": base.total_groups, "total_groups_on": v.total_groups, "next_off": base.next_cursor.is_some(), "next_on": v.next_cursor.is_some()});
+          // Without explain a sort that ignores _score (and a query without custom scoring) never
+          // computes scores: every hit carries 0, rescoring combines with 0, an inner sort by
+          // _score degenerates to document order.  Comparisons below are then made modulo scores
+          // (and modulo inner hits when the inner sort uses _score).
+          let loosen = explain && !scores_computed(&req);
+          let drop_inner = loosen && plan_json(&req["collapse"]["inner_hits"]["sort"]).as_array().map(|a| a.iter().any(|p| p["f"] == "score")).unwrap_or(false) && !req["collapse"]["inner_hits"].is_null();
+          let norm = |t: &SearchResult| if loosen { normalize(t, drop_inner) } else { t.clone() };
+          if explain && !fast && (has_resc || has_coll) {
+            // deep-fetch twin: flags off, candidate_size covering all matches
+            let deep = deep_cache.get_or_insert_with(|| {
+              let mut t = req.clone();
+              t["candidate_size"] = json!(ALL);
+              run(&built.reader, &t).ok()
+            });
+            let differs_from_base = deep.as_ref().map(|t| diff_results(&norm(t), &norm(&base)).is_some()).unwrap_or(false);
+            if differs_from_base && deep.as_ref().map(|t| diff_results(&norm(t), &norm(&v)).is_none()).unwrap_or(false) {
+              s.fail("explain.fetch-depth", "with explain and a sort other than plain _score desc every match of a segment is ranked and reaches rescoring/collapse, without explain only max(limit,candidate_size)+1: hits, total_groups or next_cursor differ", case, obs);
+              continue;
+            }
+          }
+          if loosen && diff_results(&norm(&base), &norm(&v)).is_none() {
+            s.fail("explain.scores-only-with-explain", "under a sort without _score (and a query without custom scoring) scores are not computed without explain (hits carry 0, rescoring combines with 0, inner sort by _score is document order) and are computed with explain", case, obs);
+            continue;
+          }
+          s.fail(if explain { "explain.result-changed" } else { "profile.result-changed" }, "response (ignoring explanation/profile) differs from the flags-off response", case, obs);
+        }
+      }
+      if explain {
+        if let Some(e) = explanations_ok(&v.hits) {
+          s.fail("explain.final-score", "an explanation is missing or its final score is not the hit score", case, json!({"profile": profile, "what": e}));
+        }
+      }
+      if profile != v.profile.is_some() {
+        s.fail("profile.presence", "profile block present/absent against the flag", case, json!({"explain": explain, "profile": profile}));
+      }
+      // ---------------- correspondence ----------------
+      // matched hits + scores as the post-processing step of *this* variant sees them
+      let mut rk = ranking_req(case, &req["sort"]);
+      rk["explain"] = json!(explain);
+      let ranking = match run(&built.reader, &rk) {
+        Ok(x) => x,
+        Err(_) => continue,
+      };
+      let scores = match raw_scores(&built.reader, &rk, &ranking) {
+        Ok(x) => x,
+        Err(_) => continue,
+      };
+      let cur = cursor.as_ref().map(|(id, sc, n)| (id.as_str(), *sc, *n));
+      let m = drv.call("C20", model_req(&r, &lay, model_hits(&lay, &scores, outcomes.as_ref()), cur, false));
+      if let Some(d) = compare(&m, &v, &lay, total_is_exact(&r, &case["query"])) {
+        s.disagree("post.search", case, json!({"explain": explain, "profile": profile, "diff": d, "hits": hit_ids(&v.hits), "total_groups": v.total_groups, "next": v.next_cursor.is_some()}), m);
+      }
+    }
+  }
 }
